@@ -227,7 +227,7 @@ func main() {
 		return
 	}
 
-	n := r.N(20000, 2000000)
+	n := r.N(150000, 3000000)
 	done := 0
 	for i := 0; i < n; i++ {
 		if !r.Mine(i) {
